@@ -587,8 +587,13 @@ def run(chk):
         ch.add_nn_hamiltonian(1, 0.3 * SX, SX)
         # a time-independent system with Lindblad terms whose rates are not one
         sl = oqupy.System(H, gammas=[0.3, 2.5], lindblad_operators=[oqupy.operators.sigma("-"), 0.5 * SZ + 0.2 * SX])
+        # imaginary-time objects: one GibbsParameters object for baths at two temperatures
+        od = np.diag([1.0, -0.5]).astype(complex)
+        gb = {k_: oqupy.Bath(od, oqupy.PowerLawSD(alpha=0.2, zeta=1, cutoff=3.0, cutoff_type="exponential", temperature=T_)) for k_, T_ in (("A", 0.5), ("B", 1.3))}
         return {"bath": bb, "td": td, "mfs": mfs, "ps": ps, "pt": pt, "sys": oqupy.System(H), "par": par,
-                "par2": oqupy.TempoParameters(dt=0.05, epsrel=1e-7, dkmax=2), "chain": ch, "sysL": sl}
+                "par2": oqupy.TempoParameters(dt=0.05, epsrel=1e-7, dkmax=2), "chain": ch, "sysL": sl,
+                "gpar": oqupy.GibbsParameters(n_steps=5, epsrel=1e-9), "gbath": gb,
+                "mps": oqupy.AugmentedMPS([rho, rho.conj(), rho]), "tpar": oqupy.PtTebdParameters(dt=0.1, order=2, epsrel=1e-9)}
 
     def fingerprint(ob):
         """the values a caller can read off the shared parameter objects (they must never change through library calls)"""
@@ -596,6 +601,8 @@ def run(chk):
         for k_ in ("sys", "sysL"):
             out += [np.array(ob[k_].hamiltonian)] + [np.array(x) for x in ob[k_].lindblad_operators] + [np.array(ob[k_].gammas, dtype=complex)]
         out += [np.array([ob["par"].dt, ob["par"].epsrel, ob["par2"].dt, ob["par2"].epsrel]), np.array(ob["bath"].coupling_operator), np.array(ob["bath"].unitary_transform)]
+        out += [np.array([ob["gpar"].n_steps, ob["gpar"].epsrel, ob["tpar"].dt, ob["tpar"].epsrel, ob["tpar"].order])]
+        out += [np.array(g_) for g_ in ob["mps"].gammas] + [np.array(l_) for l_ in ob["mps"].lambdas]
         return out
 
     def job_run(name, ob):
@@ -631,6 +638,22 @@ def run(chk):
                               oqupy.PtTebdParameters(dt=0.1, order=order, epsrel=1e-9), dynamics_sites=[0, 1, 2])
             r = tb.compute(2, progress_type="silent")
             return np.concatenate([np.array(r["dynamics"][i].states).reshape(-1) for i in range(3)])
+        if name.startswith("gibbs@"):
+            return np.array(oqupy.gibbs_tempo_compute(ob["sys"], ob["gbath"][name[6:]], ob["gpar"], progress_type="silent")).reshape(-1)
+        if name.startswith("meanfield-flip@") or name.startswith("field-dynamics"):
+            # the same MeanFieldSystem object with another initial state (and through the other driver)
+            r0_ = rho.conj() if "flip" in name else rho
+            t0 = float(name.split("@")[1])
+            if name.startswith("meanfield-flip@"):
+                d = oqupy.MeanFieldTempo(ob["mfs"], [ob["bath"]], ob["par"], [r0_], 0.2 + 0j, t0).compute(t0 + 0.3, progress_type="silent")
+            else:
+                d = oqupy.compute_dynamics_with_field(ob["mfs"], 0.2 + 0j, dt=0.1, num_steps=3, start_time=t0, initial_state_list=[r0_], progress_type="silent")
+            return np.append(st(d.system_dynamics[0]), d.fields)
+        if name.startswith("tebd-mps#"):
+            # one AugmentedMPS object and one PtTebdParameters object serve several PT-TEBD computations of different length
+            tb = oqupy.PtTebd(ob["mps"], ob["chain"], [None, None, None], ob["tpar"], dynamics_sites=[0, 1, 2])
+            r = tb.compute(int(name[9:]), progress_type="silent")
+            return np.concatenate([np.array(r["dynamics"][i].states).reshape(-1) for i in range(3)])
         if name == "chain-generators":
             return np.concatenate([np.array(x).reshape(-1) for x in ob["chain"].get_nn_full_liouvillians()])
         if name == "tempo-plain":
@@ -650,7 +673,8 @@ def run(chk):
 
     JOBS = ["tempo@0.0", "tempo@1.5", "tempo@-0.7", "tempo-dt2@0.0", "tempo-dt2@1.5", "dynamics@0.0", "dynamics@1.5", "dynamics@-0.7",
             "dynamics-nosubdiv@0.0", "dynamics-nosubdiv@1.5", "correlations@0.0", "correlations@1.5", "meanfield@0.0", "meanfield@0.4",
-            "gradient#0", "gradient#1", "tempo-plain", "tebd#1", "tebd#2", "chain-generators", "guess", "tempo-guessed", "dynamics-lindblad"]
+            "gradient#0", "gradient#1", "tempo-plain", "tebd#1", "tebd#2", "chain-generators", "guess", "tempo-guessed", "dynamics-lindblad",
+            "gibbs@A", "gibbs@B", "meanfield-flip@0.0", "meanfield-flip@0.4", "field-dynamics@0.0", "field-dynamics-flip@0.0", "tebd-mps#1", "tebd-mps#3"]
     fresh_results = {}
     for it in range(5 if thorough else 2):
         shared = quiet(mk_objs)
@@ -660,7 +684,10 @@ def run(chk):
         pair = [j for j in JOBS if j.startswith(fam)][:2]
         rng.shuffle(pair)
         seq = pair + rng.choice([["tebd#1", "tebd#1"], ["chain-generators", "tebd#2"], ["tebd#2", "chain-generators"]]) \
-            + rng.choice([["guess", "dynamics-lindblad"], ["tempo-guessed", "guess", "dynamics-lindblad"]]) + seq
+            + rng.choice([["guess", "dynamics-lindblad"], ["tempo-guessed", "guess", "dynamics-lindblad"]]) \
+            + rng.choice([["gibbs@A", "gibbs@B"], ["gibbs@B", "gibbs@A"]]) \
+            + rng.choice([["meanfield@0.0", "meanfield-flip@0.0"], ["field-dynamics@0.0", "field-dynamics-flip@0.0"], ["meanfield-flip@0.4", "meanfield@0.4"]]) \
+            + rng.choice([["tebd-mps#1", "tebd-mps#3"], ["tebd-mps#3", "tebd-mps#1"]]) + seq
         chain_snapshot = [x.copy() for x in fingerprint(shared)]
         for pos, name in enumerate(seq):
             info = {"kind": "shared-pool", "sequence": seq[:pos + 1], "job": name}
